@@ -233,6 +233,17 @@ func Pairs() []*ConnPair {
 	return append([]*ConnPair(nil), w.pairs...)
 }
 
+// PairsTo returns the connections dialled to addr so far.
+func PairsTo(addr string) []*ConnPair {
+	var out []*ConnPair
+	for _, p := range Pairs() {
+		if p.Addr == addr {
+			out = append(out, p)
+		}
+	}
+	return out
+}
+
 // Dials returns the log of dial attempts.
 func Dials() []DialRec {
 	w.mu.Lock()
